@@ -74,9 +74,13 @@ def ArmOk (a0 : Arm) (x : FCfg) : Prop :=
 /-- an error of the state machine itself -/
 def Internal (e : Exc) : Prop := e = .assertion ∨ e = .invalidState ∨ ∃ a b, e = .noTransition a b
 
-/-- an error of the state machine itself ("cannot transition", a failed assertion) met the fault inside the failing transition -/
+/-- an error of the state machine itself ("cannot transition", a failed assertion) met the fault inside the failing transition: only
+`on_terminated` / `on_close` run there -/
 def Bad (a0 : Arm) (x : FCfg) : Prop :=
-  mainHK a0.hk = true ∧ x.fired = true ∧ ∃ e, Internal e ∧ x.l.c.st = .excepted e
+  (a0.hk = .onTerminated ∨ a0.hk = .onClose) ∧ x.fired = true ∧ ∃ e, Internal e ∧ x.l.c.st = .excepted e
+
+theorem Bad.main {a0 : Arm} {x : FCfg} (h : Bad a0 x) : mainHK a0.hk = true := by
+  rcases h.1 with h | h <;> rw [h] <;> rfl
 
 def Kg (a0 : Arm) (x : FCfg) : Prop :=
   Inv2w x.l.c ∧ (mainHK a0.hk = true → x.fired = true → x.l.c.st = .excepted faultExc)
